@@ -115,6 +115,17 @@ type stateRec struct {
 	w    *World // live world at that state (cloned before any further use)
 }
 
+// PartFraction, Extra and ReplayHook let a check add a second part after the shared search
+// (C14: the evidence-to-stake pipeline on a real chain). PartFraction is the share of the soft
+// deadline the shared part may use; Extra runs before the evidence is written; ReplayHook may
+// claim a replay artefact.
+var (
+	PartFraction float64
+	Extra        func(r *mc.Run, cov map[string]any)
+	ReplayHook   func(r *mc.Run) bool
+	SkipShared   func() bool
+)
+
 // Main is the entry point shared by C01 (agreement), C14 (evidence soundness) and C15 (liveness tail).
 func Main(id string) {
 	depthFlag := flag.Int("depth", 0, "override BFS depth")
@@ -130,8 +141,15 @@ func Main(id string) {
 		"cryptographic hardness (BLS unforgeability, hash collision resistance) is assumed",
 	}
 	if r.Replay != "" {
+		if ReplayHook != nil && ReplayHook(r) {
+			return
+		}
 		replayMain(r, *traceFlag)
 		return
+	}
+	stop = r.Expired
+	if PartFraction > 0 {
+		stop = func() bool { return r.ExpiredFrac(PartFraction) }
 	}
 	// quick: reduced round alphabet to depth 4; thorough: full alphabet (see DESIGN) to depth 4,
 	// which the -reduced flag can trade for a deeper reduced-alphabet search
@@ -162,6 +180,9 @@ func Main(id string) {
 	cfgs := Configs(r.Quick())
 	if id == "C01" {
 		cfgs = append([]NamedConfig{NegativeControl()}, cfgs...) // cheap, and must not be cut by the deadline
+	}
+	if SkipShared != nil && SkipShared() {
+		cfgs = nil
 	}
 	negativeForks := 0
 	var auditedTotal int64
@@ -230,7 +251,7 @@ func Main(id string) {
 					mu.Unlock()
 				}
 			},
-			Stop: r.Expired,
+			Stop: stop,
 		})
 		auditedTotal += st.Crashes
 		if !nc.Negative {
@@ -267,8 +288,13 @@ func Main(id string) {
 	case "C14":
 		evidencePass(r, states, cov)
 	}
+	if Extra != nil {
+		Extra(r, cov)
+	}
 	r.Finish(cov)
 }
+
+var stop func() bool
 
 func livenessPass(r *mc.Run, states []stateRec, cov map[string]any) {
 	const rLive = 8
@@ -339,7 +365,7 @@ func livenessPass(r *mc.Run, states []stateRec, cov map[string]any) {
 func evidencePass(r *mc.Run, states []stateRec, cov map[string]any) {
 	var mu sync.Mutex
 	var pairs, implicated, withConflict int
-	done := mc.ParallelFor(len(states), 0, r.Expired, func(i int) {
+	done := mc.ParallelFor(len(states), 0, stop, func(i int) {
 		w := states[i].w.Clone()
 		vs, p, im := w.EvidenceViols(states[i].cfg, states[i].path)
 		mu.Lock()
